@@ -112,8 +112,32 @@ class Req:
         self.cat, self.val, self.label, self.fname, self.call, self.idempotent = cat, val, label, fname, call, idempotent
 
 
-def _fname(fn):
-    return fn.func.__name__ if isinstance(fn, functools.partial) else fn.__name__
+FNAME = {
+    'ABSORPTION': {'FO': 'set_first_order_absorption', 'ZO': 'set_zero_order_absorption', 'SEQ-ZO-FO': 'set_seq_zo_fo_absorption', 'INST': 'set_instantaneous_absorption'},
+    'ELIMINATION': {'FO': 'set_first_order_elimination', 'ZO': 'set_zero_order_elimination', 'MM': 'set_michaelis_menten_elimination', 'MIX-FO-MM': 'set_mixed_mm_fo_elimination'},
+    'LAGTIME': {'ON': 'add_lag_time', 'OFF': 'remove_lag_time'},
+}
+
+
+def req_from_key(key, fn):
+    """Request for an entry (key, function) of the MFL feature table. What the entry must do is read from the KEY only
+    (docs/mfl.rst; tools/mfl/feature/*.py), never from the function object."""
+    cat = key[0]
+    if cat in ('ABSORPTION', 'ELIMINATION'):
+        return Req(cat, key[1], f'{cat}({key[1]})', FNAME[cat].get(key[1], cat), fn)
+    if cat == 'LAGTIME':
+        return Req(cat, key[1] == 'ON', f'LAGTIME({key[1]})', FNAME[cat].get(key[1], cat), fn)
+    if cat == 'TRANSITS':
+        # TRANSITS(n, NODEPOT): the depot is turned into a transit compartment -> n + 1 chained compartments
+        keep = key[2] == 'DEPOT'
+        return Req(cat, (key[1] if keep else key[1] + 1, keep), f'TRANSITS({key[1]},{key[2]})', 'set_transit_compartments', fn)
+    if cat == 'PERIPHERALS' and len(key) == 2:
+        return Req(cat, ('set', key[1]), f'PERIPHERALS({key[1]})', 'set_peripheral_compartments', fn)
+    if cat == 'PERIPHERALS' and key[2] == 'METABOLITE':
+        return Req('PERIPHERALS_MET', ('set', key[1]), f'PERIPHERALS({key[1]},MET)', 'set_peripheral_compartments', fn)
+    if cat == 'METABOLITE':
+        return Req('EXT', 'metabolite-psc' if key[1] == 'PSC' else 'metabolite', f'METABOLITE({key[1]})', 'add_metabolite', fn, idempotent=False)
+    return None
 
 
 @functools.lru_cache(maxsize=None)
@@ -127,18 +151,12 @@ def alphabet():
         table = ModelFeatures.create_from_mfl_string(MFL).convert_to_funcs()
     out = {c: [] for c in CATS}
     for key, fn in table.items():
-        cat = key[0]
-        if cat in ('ABSORPTION', 'ELIMINATION'):
-            out[cat].append(Req(cat, key[1], f'{cat}({key[1]})', _fname(fn), fn))
-        elif cat == 'LAGTIME':
-            out[cat].append(Req(cat, key[1] == 'ON', f'LAGTIME({key[1]})', _fname(fn), fn))
-        elif cat == 'TRANSITS':
-            kw = fn.keywords
-            out[cat].append(Req(cat, (kw['n'], kw.get('keep_depot', True)), f'TRANSITS({key[1]},{key[2]})', _fname(fn), fn))
-        elif cat == 'PERIPHERALS':
-            out[cat].append(Req(cat, ('set', key[1]), f'PERIPHERALS({key[1]})', _fname(fn), fn))
-        else:
-            raise HarnessError(f'unexpected MFL key {key}')
+        r = req_from_key(key, fn)
+        if r is not None and r.cat in out:
+            out[r.cat].append(r)
+    for c in CATS[:5]:
+        if not out[c]:
+            raise HarnessError(f'the MFL feature table has no {c} entry')
     P = functools.partial
     out['PERIPHERALS'].append(Req('PERIPHERALS', ('add', None), 'add_peripheral_compartment', 'add_peripheral_compartment', pm.add_peripheral_compartment, idempotent=False))
     out['PERIPHERALS'].append(Req('PERIPHERALS', ('rm', None), 'remove_peripheral_compartment', 'remove_peripheral_compartment', pm.remove_peripheral_compartment, idempotent=False))
@@ -276,6 +294,9 @@ def detect(model, with_mfl=True):
     d['ELIMINATION'] = next((k for k, _ in ELIM_FUNCS if d['elim_flags'][k]), None)
     d['TRANSITS'] = int(call('get_number_of_transit_compartments'))
     d['PERIPHERALS'] = int(call('get_number_of_peripheral_compartments'))
+    d['PERIPHERALS_MET'] = None
+    if model.statements.ode_system.find_compartment('METABOLITE') is not None:
+        d['PERIPHERALS_MET'] = len(guard(model.statements.ode_system.find_peripheral_compartments, 'METABOLITE', allowed=allowed(), clause='detector:find_peripheral_compartments'))
     d['LAGTIME'] = bool(call('has_lag_time'))
     bio = call('get_bioavailability')
     odes = model.statements.ode_system
@@ -360,7 +381,7 @@ def mfl_of(model):
 def check_requested(req, d0, d1, model1):
     """clause 'detect': -> None or Violation"""
     cat, val = req.cat, req.val
-    mfl = d1['mfl']
+    mfl = d1.get('mfl') or _AnyMfl()
 
     def bad(what, observed, expected):
         return Violation(f'detect:{what}', observed=observed, expected=expected, detail=f'after {req.label}: get_model_features -> {mfl["string"]}')
@@ -397,6 +418,12 @@ def check_requested(req, d0, d1, model1):
             return bad(f'PERIPHERALS:{kind}', d1['PERIPHERALS'], want)
         if mfl['PERIPHERALS'] != {want}:
             return bad('PERIPHERALS:mfl', sorted(mfl['PERIPHERALS']), want)
+    elif cat == 'PERIPHERALS_MET':
+        kind, n = val
+        before = d0['PERIPHERALS_MET'] or 0
+        want = n if kind == 'set' else (before + 1 if kind == 'add' else max(before - 1, 0))
+        if d1['PERIPHERALS_MET'] != want:
+            return bad(f'PERIPHERALS_MET:{kind}', d1['PERIPHERALS_MET'], want)
     elif cat == 'LAGTIME':
         if d1['LAGTIME'] != val:
             return bad(f'LAGTIME({"ON" if val else "OFF"})', d1['LAGTIME'], val)
@@ -416,6 +443,20 @@ def check_requested(req, d0, d1, model1):
         if val == 'direct' and model1.statements.find_assignment('E') is None:
             return bad('EXT:direct', 'no assignment of E', 'E')
     return None
+
+
+class _AnyMfl:
+    """stands in for the parsed get_model_features string when it was not computed: every comparison passes"""
+
+    class _Any:
+        def __eq__(self, other):
+            return True
+
+        def __ne__(self, other):
+            return False
+
+    def __getitem__(self, k):
+        return 'not computed' if k == 'string' else self._Any()
 
 
 def coupling_doc(req, cat):
@@ -834,6 +875,339 @@ def _where(why):
 
 
 # ------------------------------------------------------------------------------------------
+# sub-check feature_table: every entry of an MFL feature -> function table applies the feature its key names
+
+TABLE_MFL = [
+    'TRANSITS([1,2,4],NODEPOT)',
+    'TRANSITS([0,1,3],DEPOT)',
+    'TRANSITS([1,3],*)',
+    'TRANSITS(0..2,*)',
+    'PERIPHERALS(0..2)',
+    'PERIPHERALS([1,3])',
+    'PERIPHERALS(0..2,MET)',
+    'PERIPHERALS(0..2,*)',
+    'PERIPHERALS(0..1,[DRUG,MET])',
+    'LAGTIME([ON,OFF])',
+    'LAGTIME([OFF,ON])',
+    'ABSORPTION([FO,ZO,SEQ-ZO-FO,INST])',
+    'ABSORPTION([ZO,FO])',
+    'ABSORPTION(*)',
+    'ELIMINATION([FO,MM,MIX-FO-MM,ZO])',
+    'ELIMINATION([ZO,MM])',
+    'ELIMINATION(*)',
+    'METABOLITE([PSC,BASIC])',
+    'METABOLITE(*);PERIPHERALS(0..2,MET)',
+    'ABSORPTION([FO,ZO]);ELIMINATION([MM,FO]);TRANSITS([1,2],*);PERIPHERALS(0..2);LAGTIME([OFF,ON])',
+    'ABSORPTION([INST,SEQ-ZO-FO]);ELIMINATION([MIX-FO-MM,ZO]);TRANSITS([2,5],[DEPOT,NODEPOT]);PERIPHERALS([2,1]);PERIPHERALS(1..2,MET);METABOLITE([BASIC,PSC])',
+]
+TABLE_STARTS = ['basic_oral', 'basic_iv', 'mox2', 'pheno']
+# how the table is obtained: ModelFeatures.convert_to_funcs(**kwargs)
+TABLE_MODES = [
+    ('all', {}),
+    ('by-attribute', None),  # attribute_type = the categories named in the string
+    ('pk', {'subset_features': 'pk'}),
+    ('metabolite', {'subset_features': 'metabolite'}),
+]
+ATTR = {'ABSORPTION': 'absorption', 'ELIMINATION': 'elimination', 'TRANSITS': 'transits', 'PERIPHERALS': 'peripherals', 'LAGTIME': 'lagtime', 'METABOLITE': 'metabolite'}
+
+
+def enumerate_table(tier):
+    for i, text in enumerate(TABLE_MFL):
+        for j in range(len(TABLE_STARTS)):
+            for k, (mode, _) in enumerate(TABLE_MODES):
+                if mode == 'metabolite' and 'MET' not in text:
+                    continue
+                if tier == 'quick' and (i + j + k) % 2:
+                    continue  # half of the grid in the quick tier (every string, start and mode still occurs)
+                yield dict(mfl=i, start=j, mode=k)
+
+
+def _single_statement(key):
+    cat = key[0]
+    if cat == 'TRANSITS':
+        return f'TRANSITS({key[1]},{key[2]})'
+    if cat == 'PERIPHERALS':
+        return f'PERIPHERALS({key[1]})' if len(key) == 2 else f'PERIPHERALS({key[1]},MET)'
+    return f'{cat}({key[1]})'
+
+
+def _signature(d):
+    return (d['ABSORPTION'], d['ELIMINATION'], d['TRANSITS'], d['depot'], d['PERIPHERALS'], d['PERIPHERALS_MET'], d['LAGTIME'], d['compartments'])
+
+
+def run_table(spec):
+    import pharmpy.modeling as pm
+    from pharmpy.model import Model
+    from pharmpy.tools.mfl.parse import ModelFeatures
+
+    from .. import corpus
+
+    text = TABLE_MFL[int(spec.get('mfl', 0)) % len(TABLE_MFL)]
+    start = TABLE_STARTS[int(spec.get('start', 0)) % len(TABLE_STARTS)]
+    mode, kwargs = TABLE_MODES[int(spec.get('mode', 0)) % len(TABLE_MODES)]
+    if kwargs is None:
+        kwargs = {'attribute_type': sorted({ATTR[part.split('(')[0]] for part in text.split(';')})}
+    classes = [f'mode:{mode}', f'start:{start}']
+    evals = 0
+    with warnings.catch_warnings():
+        warnings.simplefilter('ignore')
+        base = corpus.get(start)
+        table = guard(lambda: ModelFeatures.create_from_mfl_string(text).convert_to_funcs(**kwargs), allowed=allowed(), clause='feature-table:convert_to_funcs')
+        items = list(table.items())
+        if not items:
+            raise Reject('empty table')
+        # start models: PK entries on the corpus model; metabolite-peripheral entries on the model with a metabolite
+        # without and with one metabolite peripheral
+        bases = {'pk': [('', base)]}
+        if any(k[0] == 'PERIPHERALS' and len(k) == 3 for k, _ in items):
+            try:
+                met = guard(pm.add_metabolite, base, allowed=allowed(), clause='not-total:add_metabolite')
+                bases['met'] = [('+metabolite', met)]
+                try:
+                    met1 = guard(pm.add_peripheral_compartment, met, 'METABOLITE', allowed=allowed(), clause='not-total:add_peripheral_compartment')
+                    bases['met'].append(('+metabolite+1 metabolite peripheral', met1))
+                except Reject:
+                    classes.append('metabolite-peripheral-refused')
+            except Reject:
+                classes.append('metabolite-refused')
+        rendered = []
+        for key, fn in items:
+            req = req_from_key(key, fn)
+            if req is None:
+                classes.append(f'unchecked-key:{key[0]}')
+                continue
+            single_text = _single_statement(key)
+            single_table = guard(lambda: ModelFeatures.create_from_mfl_string(single_text).convert_to_funcs(), allowed=allowed(), clause='feature-table:convert_to_funcs')
+            if key not in single_table:
+                raise Violation(f'feature-table:key-missing:{key[0]}', observed=[str(k) for k in single_table], expected=str(key), detail=f'table of {single_text}')
+            ref_fn = single_table[key]
+            for tag, m0 in bases['met' if req.cat == 'PERIPHERALS_MET' else 'pk'] if (req.cat != 'PERIPHERALS_MET' or 'met' in bases) else []:
+                ctx = f'{start}{tag}: entry {key} of the table of {text} (convert_to_funcs {kwargs})'
+                d0 = detect(m0, with_mfl=False)
+                outcome = []
+                for which, f in (('table', fn), ('single', ref_fn)):
+                    try:
+                        m1 = guard(f, m0, allowed=allowed(), clause=f'not-total:{req.fname}')
+                    except Violation as v:
+                        v.detail = f'{ctx}; {v.detail}'
+                        raise
+                    except Reject as r:
+                        outcome.append(('refused', r.why[:80]))
+                        continue
+                    if not isinstance(m1, Model):
+                        raise Violation(f'not-total:{req.fname}:returned-{type(m1).__name__}', detail=ctx)
+                    try:
+                        d1 = detect(m1, with_mfl=False)
+                    except Reject as r:
+                        raise Violation(f'detect:detector-refuses:{req.cat}', observed=r.why, detail=ctx)
+                    outcome.append(('model', _signature(d1), d1, m1))
+                evals += 1
+                t, sres = outcome
+                if t[0] != sres[0] or t[1] != sres[1]:
+                    raise Violation(
+                        f'feature-table:entry-differs-from-single-request:{key[0]}', observed=[str(x) for x in t[:2]], expected=[str(x) for x in sres[:2]],
+                        detail=f'{ctx}: the function stored under the key does something else than the function of the one-entry table of {single_text} '
+                        '(observed = table entry, expected = single request; refusal or absorption, elimination, transits, depot, peripherals, metabolite peripherals, lag time, compartments)',
+                    )
+                if t[0] == 'refused':
+                    classes.append(f'refused:{key[0]}')
+                    rendered.append(f'{key}{tag}: refused')
+                    continue
+                d1, m1 = t[2], t[3]
+                v = check_requested(req, d0, d1, m1)
+                if v is not None:
+                    v.clause = 'feature-table:' + v.clause
+                    v.detail = f'{ctx}; {v.detail}'
+                    raise v
+                # the other count of the pair (drug / metabolite peripherals) is untouched
+                other = 'PERIPHERALS' if req.cat == 'PERIPHERALS_MET' else ('PERIPHERALS_MET' if req.cat == 'PERIPHERALS' else None)
+                if other and d0[other] != d1[other]:
+                    raise Violation(f'feature-table:other-category-changed:{req.cat}->{other}', observed=d1[other], expected=d0[other], detail=ctx)
+                classes.append(f'entry:{key[0]}' + (':MET' if req.cat == 'PERIPHERALS_MET' else ''))
+                rendered.append(f'{key}{tag}: ok')
+    ncounts = {}
+    for k, _ in items:
+        ncounts[k[0]] = ncounts.get(k[0], 0) + 1
+    return CaseInfo(nontrivial=any(v >= 2 for v in ncounts.values()) and evals >= 2, classes=tuple(classes), render=dict(mfl=text, start=start, mode=mode, entries=rendered), evals=max(evals, 1))
+
+
+# ------------------------------------------------------------------------------------------
+# sub-check metabolite_peripherals: PERIPHERALS(n) / PERIPHERALS(n,MET) requests on drug-metabolite models
+
+MET_STARTS = ['basic_oral', 'basic_iv', 'mox2', 'pheno']
+
+
+def _met_requests():
+    import pharmpy.modeling as pm
+
+    P = functools.partial
+    out = []
+    for who, name in (('drug', None), ('met', 'METABOLITE')):
+        cat = 'PERIPHERALS' if name is None else 'PERIPHERALS_MET'
+        sfx = '' if name is None else ',MET'
+        for n in (0, 1, 2):
+            out.append(Req(cat, ('set', n), f'PERIPHERALS({n}{sfx})', 'set_peripheral_compartments', P(pm.set_peripheral_compartments, n=n, name=name)))
+        out.append(Req(cat, ('add', None), f'add_peripheral_compartment({name or ""})', 'add_peripheral_compartment', P(pm.add_peripheral_compartment, name=name), idempotent=False))
+        out.append(Req(cat, ('rm', None), f'remove_peripheral_compartment({name or ""})', 'remove_peripheral_compartment', P(pm.remove_peripheral_compartment, name=name), idempotent=False))
+    return out
+
+
+def _strategy_met():
+    return st.fixed_dictionaries(
+        dict(
+            start=st.integers(0, len(MET_STARTS) - 1),
+            psc=st.booleans(),
+            drug_first=st.integers(0, 2),
+            reqs=st.lists(st.integers(0, 9), min_size=1, max_size=4),
+            pt=st.integers(0, 5),
+        )
+    )
+
+
+def _unused_parameters(model):
+    used = set()
+    for s_ in model.statements:
+        used |= {str(x) for x in s_.free_symbols}
+    used |= set(model.random_variables.parameter_names)
+    return {p for p in model.parameters.names if p not in used}
+
+
+def run_met(spec):
+    import pharmpy.modeling as pm
+    from pharmpy.model import Model
+
+    from .. import corpus
+
+    start = MET_STARTS[int(spec.get('start', 0)) % len(MET_STARTS)]
+    psc = bool(spec.get('psc'))
+    drug_first = int(spec.get('drug_first', 0)) % 3
+    table = _met_requests()
+    reqs = [table[int(i) % len(table)] for i in (spec.get('reqs') or [])[:6]]
+    if not reqs:
+        raise Reject('empty sequence')
+    pt = int(spec.get('pt', 0)) % 6
+    pts = (pt, pt + 1)
+    classes = [f'start:{start}', f'drug-peripherals-first:{drug_first}', 'presystemic' if psc else 'basic']
+    outcomes = []
+    evals = 0
+    with warnings.catch_warnings():
+        warnings.simplefilter('ignore')
+        m = corpus.get(start)
+        # the history up to the metabolite is checked by the sub-check `sequences`: refusals / errors here are rejections
+        m = guard(pm.set_peripheral_compartments, m, drug_first, allowed=allowed(), clause='setup', internal_is_violation=False)
+        m = guard(pm.add_metabolite, m, presystemic=psc, allowed=allowed(), clause='setup', internal_is_violation=False)
+        try:
+            d0 = detect(m, with_mfl=False)
+        except (Reject, Violation) as e:
+            raise Reject(f'detectors on the metabolite model: {e}')
+        undef0 = undefined_names(m, pts[0])
+        unused0 = _unused_parameters(m)
+        ok = []
+        for req in reqs:
+            ctx = f'{start}, {drug_first} drug peripherals, add_metabolite(presystemic={psc}): {outcomes} then {req.label}'
+            try:
+                m1 = guard(req.call, m, allowed=allowed(), clause=f'not-total:{req.fname}')
+            except Violation as v:
+                v.detail = f'{ctx}; {v.detail}'
+                raise
+            except Reject as r:
+                outcomes.append(f'{req.label}: refused ({r.why[:60]})')
+                classes.append(f'refusal:{req.label}:{_where(r.why)}')
+                evals += 1
+                continue
+            if not isinstance(m1, Model):
+                raise Violation(f'not-total:{req.fname}:returned-{type(m1).__name__}', detail=ctx)
+            try:
+                d1 = detect(m1, with_mfl=False)
+            except Reject as r:
+                raise Violation(f'detect:detector-refuses:{req.cat}', observed=r.why, detail=ctx)
+            except Violation as v:
+                v.detail = f'{ctx}; {v.detail}'
+                raise
+            evals += 1
+            v = check_requested(req, d0, d1, m1)
+            if v is not None:
+                v.detail = f'{ctx}; compartments {list(d1["compartments"])}; {v.detail}'
+                raise v
+            for cat in ('PERIPHERALS', 'PERIPHERALS_MET', 'ABSORPTION', 'ELIMINATION', 'TRANSITS', 'LAGTIME', 'BIO'):
+                if cat != req.cat and d0[cat] != d1[cat]:
+                    raise Violation(f'other-category-changed:{req.cat}->{cat}', observed=d1[cat], expected=d0[cat], detail=f'{ctx}; compartments {list(d1["compartments"])}')
+            if d1['doses'] != d0['doses']:
+                raise Violation(f'doses-changed:{req.fname}', observed=list(d1['doses']), expected=list(d0['doses']), detail=ctx)
+            undef1 = undefined_names(m1, pts[0])
+            new_undef = sorted(set(undef1) - set(undef0))
+            if new_undef:
+                raise Violation(f'undefined-symbol:{req.fname}', observed={k: undef1[k] for k in new_undef}, expected='every symbol used by the model is defined', detail=ctx)
+            unused1 = _unused_parameters(m1)
+            if unused1 - unused0:
+                raise Violation(f'unused-parameter:{req.fname}', observed=sorted(unused1 - unused0), expected=[], detail=f'{ctx}: parameters that no statement and no random variable uses; compartments {list(d1["compartments"])}')
+            # idempotence of set n
+            if req.idempotent:
+                try:
+                    m2 = guard(req.call, m1, allowed=allowed(), clause=f'not-total:{req.fname}')
+                except Reject:
+                    classes.append(f'again-refused:{req.label}')
+                    m2 = None
+                except Violation as v:
+                    v.detail = f'{ctx} then {req.label} again; {v.detail}'
+                    raise
+                if m2 is not None:
+                    res = equiv(m1, m2, pts)
+                    evals += 1
+                    if res is not None and res[0] not in ('unsupported', 'renamed'):
+                        raise Violation(f'idempotence:function:{req.label}:{_kind(res[0])}', observed=res[1], expected=res[2], detail=f'{ctx} then {req.label} again: {res[0]}')
+            # reversibility: set n -> set n0, add -> remove (documented inverse pairs, "See also")
+            before = d0[req.cat] or 0
+            after = d1[req.cat] or 0
+            u = None
+            if after != before and start in REV_STARTS:
+                kind = req.val[0]
+                if kind == 'add':
+                    u = next(r for r in table if r.cat == req.cat and r.val == ('rm', None))
+                elif kind == 'set' and before <= 2:
+                    u = next(r for r in table if r.cat == req.cat and r.val == ('set', before))
+            if u is not None:
+                try:
+                    m3 = guard(u.call, m1, allowed=allowed(), clause=f'not-total:{u.fname}')
+                except Reject:
+                    classes.append(f'undo-refused:{req.label}->{u.label}')
+                    m3 = None
+                except Violation as v:
+                    v.detail = f'{ctx} then {u.label}; {v.detail}'
+                    raise
+                if m3 is not None:
+                    res = equiv(m, m3, pts)
+                    evals += 1
+                    classes.append(f'undo:{req.cat}')
+                    if res is not None and res[0] == 'renamed':
+                        classes.append('undo-up-to-renaming')
+                    elif res is not None and res[0] != 'unsupported':
+                        raise Violation(
+                            f'reversible:{req.label}->{u.label}:{_kind(res[0])}', observed=res[1], expected=res[2],
+                            detail=f'{ctx} then {u.label} does not restore the model before {req.label}: {res[0]} (observed = after undo, expected = before)',
+                        )
+            # codegen
+            try:
+                m1u = guard(m1.update_source, allowed=allowed(), clause=f'codegen:update_source:after-{req.fname}')
+                guard(lambda: m1u.code, allowed=allowed(), clause=f'codegen:code:after-{req.fname}')
+            except Reject as r:
+                classes.append(f'codegen-refused:{req.fname}:{r.why[:50]}')
+            except Violation as v:
+                v.detail = f'{ctx}; {v.detail}'
+                raise
+            outcomes.append(f'{req.label}: ok')
+            classes.append(f'counts:drug={d1["PERIPHERALS"]},met={d1["PERIPHERALS_MET"]}')
+            ok.append(req)
+            m, d0, undef0, unused0 = m1, d1, undef1, unused1
+    both = {r.cat for r in ok}
+    return CaseInfo(
+        nontrivial=len(ok) == len(reqs) and len(reqs) >= 2 and len(both) == 2, classes=tuple(classes),
+        key=f'{start}|{psc}|{drug_first}|' + '|'.join(r.label for r in reqs),
+        render=dict(start=start, presystemic=psc, drug_peripherals_first=drug_first, steps=outcomes), evals=max(evals, 1),
+    )
+
+
+# ------------------------------------------------------------------------------------------
 # known-findings predicates (on the spec)
 
 
@@ -919,42 +1293,48 @@ KNOWN_PREDICATES = {
 
 
 def selfcheck():
-    import pharmpy.modeling as pm
-    from pharmpy.tools.mfl.parse import ModelFeatures
-
+    """Tests of the check's own reference code only (the equivalence oracle and the total spec interpretation).
+    Everything that exercises pharmpy's feature tables, setters or detectors lives in the sub-checks."""
     from .. import corpus
 
     with warnings.catch_warnings():
         warnings.simplefilter('ignore')
-        table = ModelFeatures.create_from_mfl_string(MFL).convert_to_funcs()
-        al = alphabet()
-        n_mfl = sum(1 for c in CATS for r in al[c] if r.label.startswith(c + '('))
-        if n_mfl != len(table):
-            raise HarnessError(f'alphabet misses MFL keys: {n_mfl} of {len(table)}')
-        iv, oral = corpus.get('basic_iv'), corpus.get('basic_oral')
-        d = detect(iv)
-        if (d['ABSORPTION'], d['ELIMINATION'], d['TRANSITS'], d['PERIPHERALS'], d['LAGTIME'], d['BIO']) != ('INST', 'FO', 0, 0, False, False):
-            raise HarnessError(f'detectors on basic_iv: {d}')
-        d = detect(oral)
-        if (d['ABSORPTION'], d['ELIMINATION'], d['depot']) != ('FO', 'FO', True):
-            raise HarnessError(f'detectors on basic_oral: {d}')
-        # equivalence oracle: reflexive, and sensitive to a changed rate / lost parameter
-        if equiv(oral, oral, (0, 1)) is not None:
-            raise HarnessError('equiv not reflexive')
-        other = pm.set_michaelis_menten_elimination(oral)
-        if equiv(oral, other, (0, 1)) is None:
-            raise HarnessError('equiv blind to parameters')
-        from pharmpy.basic import Expr
-        from pharmpy.model import CompartmentalSystem, CompartmentalSystemBuilder, output
+        try:
+            iv, oral = corpus.get('basic_iv'), corpus.get('basic_oral')
+            from pharmpy.basic import Expr
+            from pharmpy.model import CompartmentalSystem, CompartmentalSystemBuilder, output
 
-        odes = oral.statements.ode_system
-        cb = CompartmentalSystemBuilder(odes)
-        central = odes.central_compartment
-        cb.add_flow(central, output, odes.get_flow(central, output) * Expr.integer(2))
-        twice = oral.replace(statements=oral.statements.before_odes + CompartmentalSystem(cb) + oral.statements.after_odes)
-        res = equiv(oral, twice, (0, 1))
-        if res is None or not res[0].startswith('ode:rhs'):
-            raise HarnessError(f'equiv blind to a changed elimination rate: {res}')
+            odes = oral.statements.ode_system
+            cb = CompartmentalSystemBuilder(odes)
+            central = odes.central_compartment
+            cb.add_flow(central, output, odes.get_flow(central, output) * Expr.integer(2))
+            twice = oral.replace(statements=oral.statements.before_odes + CompartmentalSystem(cb) + oral.statements.after_odes)
+        except Exception:  # noqa
+            return  # the fixtures could not be built with this tree: nothing to say about the reference code
+        try:
+            r0, r1, r2 = equiv(oral, oral, (0, 1)), equiv(oral, iv, (0, 1)), equiv(oral, twice, (0, 1))
+        except Exception as e:  # noqa
+            from ..core import innermost_pharmpy_frame
+
+            if innermost_pharmpy_frame(e) != 'outside-pharmpy':
+                return
+            raise
+        if r0 is not None:
+            raise HarnessError(f'equiv not reflexive: {r0}')
+        if r1 is None:
+            raise HarnessError('equiv blind to different compartments / parameters')
+        if r2 is None or not r2[0].startswith('ode:rhs'):
+            raise HarnessError(f'equiv blind to a changed elimination rate: {r2}')
+    for bad in ({}, {'start': 'x', 'reqs': [[1]], 'pt': None}, {'reqs': None}):
+        try:
+            resolve(bad)
+        except HarnessError:
+            raise
+        except Exception as e:  # noqa
+            from ..core import innermost_pharmpy_frame
+
+            if innermost_pharmpy_frame(e) == 'outside-pharmpy':
+                raise HarnessError(f'spec interpretation is not total: {bad}: {e!r}')
 
 
 SUBCHECKS = [
@@ -963,4 +1343,8 @@ SUBCHECKS = [
     SubCheck('dose_attributes', lambda: _strategy_dose_attributes(5), run_sequence, quick=640, thorough=4000),
     # longer histories only in the thorough tier
     SubCheck('sequences6', lambda: _strategy(6), run_sequence, quick=0, thorough=6000),
+    # every entry of MFL feature tables built from statements with several values (enumerated grid)
+    SubCheck('feature_table', None, run_table, quick=0, thorough=0, enumerate=enumerate_table),
+    # drug / metabolite peripherals on drug-metabolite models
+    SubCheck('metabolite_peripherals', _strategy_met, run_met, quick=320, thorough=3000),
 ]
